@@ -64,6 +64,14 @@ PointCases(g) ==
   \o SetToSeq(BinCases(g, "pt.add_mixed", Reps, AffReps, {0, 1}))
   \o SetToSeq(BinCases(g, "pt.eq", Reps, Reps, {0}))
   \o SetToSeq(BinCases(g, "pt.aeq", AffReps, AffReps, {0}))
+  \* the identity flag decides, not the coordinate fields: an identity record that still holds the coordinates of the other operand
+  \* (an object that held P and was then marked as the identity), in both argument orders
+  \o SetToSeq(UNION { LET pr == AffRaw(g, pt)  idp == <<pr[1], pr[2], 1>> IN
+                      { [op |-> "pt.aeq", g |-> g, rel |-> "identity-holding-operand", a |-> x[1], b |-> x[2], alias |-> 0, api |-> api, src |-> "gen"] :
+                        x \in { <<pr, idp>>, <<idp, pr>>, <<idp, idp>> }, api \in Apis } : pt \in { P3(g), NonSub(g) } })
+  \o SetToSeq(UNION { LET pr == AffRaw(g, pt)  idp == <<pr[1], pr[2], 1>> IN
+                      { [op |-> "pt.add_mixed", g |-> g, rel |-> "identity-holding-operand", a |-> JacRaw(g, pt, FOneG(g)), b |-> idp, alias |-> al, api |-> api, src |-> "gen"] : al \in {0, 1}, api \in Apis }
+                    : pt \in { P3(g), NonSub(g) } })
   \o SetToSeq({ [op |-> o, g |-> g, rel |-> "unary", a |-> ra, alias |-> al, api |-> api, src |-> "gen"] :
              o \in {"pt.dbl", "pt.neg", "pt.to_affine", "pt.is_zero"}, ra \in UNION { Reps(g, x) : x \in { P3(g), <<>>, NonSub(g) } }, al \in {0, 1}, api \in Apis })
   \o SetToSeq({ [op |-> o, g |-> g, rel |-> "unary", a |-> ra, alias |-> al, api |-> api, src |-> "gen"] :
